@@ -114,6 +114,7 @@ type Obligation struct {
 	Ms      int64
 	Model   string
 	Output  string
+	Cached  bool    // answered from the proof cache (identical query text answered earlier)
 	Clause  *Clause // the contract clause behind an ensures/returns obligation (used by the replay driver)
 	NoSlice bool    // include the whole theory (consistency check)
 	Static  bool    // decided at generation time (census)
